@@ -805,24 +805,35 @@ def cleanT(t):
     return rewrite(clean(t), lambda y: cleanT(y[2][0]) if y[0] == "call" and len(y[2]) == 1 and re.search(r"Option::<T>::take$|mem::take$", y[1]) and clean(y[2][0]) == POS else None)
 
 
+def _is_len_of(x, what):
+    x = x[1] if x[0] == "len" else x
+    return x == what or (x[0] == "call" and re.search(r"::len$", x[1]) is not None and len(x[2]) == 1 and x[2][0] == what)
+
+
 def _declarative_step(ctx, F, nb, ntm, sel):
     """The step written without a loop over the positions: tick = first i with pos[i] < final_pos[i] (none => finished);
     pos[..tick] = 0; pos[tick] += 1.  Same transition as the loop form: the positions before the first one below its final value
     are exactly those at their final value, and no such position exists iff the last one was passed (or there are no sets).
     Returns False when this shape is not present (the caller then reports the missing loop)."""
     I = ("i",)
-    ps = [c for c in nb.calls() if c.callee and itm(c.callee, "position")]
+    ps = [c for c in nb.calls() if c.callee and (itm(c.callee, "position") or itm(c.callee, "find"))]
     if len(ps) != 1:
         return False
     pc = ps[0]
     recv = cleanT(ntm.operand(pc.args[0], pc.bb))
     cl = ntm.operand(pc.args[1], pc.bb)
+    while cl[0] in ("mut", "ref"):
+        cl = cl[1]
     pf = positional_form(F, recv, I)
     if pf is None or cl[0] != "closure" or cl[1] not in F.bodies:
         return False
+    pf = (pf[0], {("len", POS) if _is_len_of(x, POS) else (("len", FINAL) if _is_len_of(x, FINAL) else x) for x in pf[1]})
     elem = pf[0]
+    if itm(pc.callee, "find") and elem != I:
+        # `find` yields the element, `position` its index: the same thing only for (0..n).find(..)
+        return False
     crt = clean(Terms(F.bodies[cl[1]]).return_term())
-    test = proj_simplify(rewrite(crt, lambda y: elem if y == ("arg", 2) else None))
+    test = proj_simplify(cleanT(substitute_closure(crt, tuple(cleanT(x) for x in cl[2]), (elem,))))
     c = as_cmp(test)
     c = canon_cmp(c) if c else None
     okp = c == ("Lt", ("at", POS, I), ("at", FINAL, I)) and pf[1] <= {("len", POS), ("len", FINAL)} and not [x for x in calls_in(recv) if re.search(r"Iterator>?::(take|skip|filter|step_by|rev|chain)$", x[1])]
